@@ -107,6 +107,8 @@ def execute(ctx, case):
     sess = ctx.sess
     pos, neg, ep, en, sc, ec = case["pos"], case["neg"], case["ep"], case["en"], case["sc"], case["ec"]
     method, strat, smoothing, ratio = case["mode"]
+    if smoothing:  # kernel smoothing is only meaningful for (and only exercised on) floating-point scores
+        pos, neg = np.asarray(pos, dtype=float), np.asarray(neg, dtype=float)
     s = Scores(pos, neg, nb_easy_pos=ep, nb_easy_neg=en, score_class=sc, equal_class=ec)
     np.random.seed(case["_seed"])
     if case["kind"] == "traffic":
